@@ -224,9 +224,17 @@ func C01(c *Ctx) {
 				case 2:
 					ret = v.VarTimeDoubleScalarBaseMult(libS[0], args[0], libS[1])
 				case 3:
-					ret = v.MultiScalarMult(libS, args)
+					if len(libS) == 0 && stt%2 == 1 {
+						ret = v.MultiScalarMult(nil, nil) // nil slices are zero terms too
+					} else {
+						ret = v.MultiScalarMult(libS, args)
+					}
 				case 4:
-					ret = v.VarTimeMultiScalarMult(libS, args)
+					if len(libS) == 0 && stt%2 == 1 {
+						ret = v.VarTimeMultiScalarMult(nil, nil)
+					} else {
+						ret = v.VarTimeMultiScalarMult(libS, args)
+					}
 				}
 			})
 			c.Eval(nontriv, append(hparts, []byte{byte(stt)})...)
